@@ -135,7 +135,7 @@ ERR = {'NetworkError': [], 'FTPServerError': [], 'ProtocolError': []}
 Contract(CM, 'Commander.read_welcome_message', CMD, prop='C17/C09', modifies=CSM, ensures=[], raises=dict(ERR))
 Contract(CM, 'Commander.login', dict(CMD, username=TStr(), password=TStr()), prop='C17/C09', modifies=CSM, ensures=[], raises=dict(ERR))
 Contract(CM, 'Commander.passive_mode', CMD, ret=TTuple(TStr(), TInt()), prop='C17/C09', modifies=CSM, ensures=[('port', 'result[1] >= 0')], raises=dict(ERR))
-Contract(CM, 'Commander.size', dict(CMD, filename=TStr()), ret=TOpt(TInt()), prop='C17/C09', modifies=CSM, ensures=[], raises=dict(ERR))
+Contract(CM, 'Commander.size', dict(CMD, filename=TStr()), ret=TOpt(TInt()), prop='C17/C09', modifies=CSM, ensures=[], raises=dict(ERR), replay='ftp:replay_hostile_size')
 Contract(CM, 'Commander.restart', dict(CMD, offset=TInt()), prop='C17/C09', modifies=CSM, requires=['offset >= 0'], ensures=[], raises=dict(ERR))
 Contract('wpull/protocol/ftp/util.py', 'parse_address', {'text': TStr()}, ret=TTuple(TStr(), TInt()), prop='C17/C09',
          ensures=[('port', 'result[1] >= 0')], raises={'ValueError': []})
